@@ -248,9 +248,10 @@ class ResolveAssociatesTransformer(Transformer):
         return body
 
     def visit_CallStatement(self, o, **kwargs):
+        name = self.visit(o.name, **kwargs)
         arguments = self.visit(o.arguments, **kwargs)
         kwarguments = tuple((k, self.visit(v, **kwargs)) for k, v in o.kwarguments)
-        return o._rebuild(arguments=arguments, kwarguments=kwarguments)
+        return o._rebuild(name=name, arguments=arguments, kwarguments=kwarguments)
 
 
 def do_merge_associates(routine, max_parents=None):
